@@ -57,6 +57,9 @@ WHAT_LEAVE = ("Reader.Close returned without a LeaveGroup attempt for the member
               "path, member not evicted) — theorem C09_r_close_post_leave")
 
 
+generate = W.generate   # regenerates coq/Gen/Skeleton.v (synchronisation skeleton) before the Coq build
+
+
 def setup():
     W.setup()
     L.go_build("c09r")
